@@ -5,6 +5,7 @@ pub mod c01;
 pub mod c02;
 pub mod c04;
 pub mod c05;
+pub mod c06;
 pub mod c09;
 pub mod c10;
 pub mod c11;
@@ -22,6 +23,7 @@ pub static PROPS: &[Prop] = &[
 	Prop { id: "C03", run: c02::run_c03, replay: c02::replay_c03 },
 	Prop { id: "C04", run: c04::run, replay: c04::replay },
 	Prop { id: "C05", run: c05::run, replay: c05::replay },
+	Prop { id: "C06", run: c06::run, replay: c06::replay },
 	Prop { id: "C09", run: c09::run, replay: c09::replay },
 	Prop { id: "C10", run: c10::run, replay: c10::replay },
 	Prop { id: "C11", run: c11::run, replay: c11::replay },
